@@ -11,7 +11,7 @@ from ..symx import explore, zint
 
 PID = "C18"
 LEVEL = "other"
-LEAVES = {"X": ("a", "b", "c"), "Y": ("a", "b", "c")}
+LEAVES = {"X": ("a", "b", "c"), "Y": ("a", "b", "c"), "X2": ("a", "b", "c")}  # X2: another leaf object that *equals* X (same name)
 LAZY = {"calc", "proj", "sel", "slice", "chain"}
 EAGER = {"sort", "dedup", "mat"}
 LABELS = ("calc d", "proj -a", "sel a>k", "slice s:e", "slice s:", "sort b,-a", "dedup", "sel false", "proj none")
@@ -85,6 +85,13 @@ def shapes(tier, seed):
             add(("dedup", ("cust", node)), p, "gen")
             add(("mat", ("cust", node)), p, "seq")
             add(("cust", ("mat", node)), p, "gen")
+    # two leaf occurrences that compare equal (same engine, name and columns) but are different objects with their own payloads
+    X2 = ("leaf", "X2")
+    for a, b in ((X, X2), (("sel", X, ("gt", ("ref", "a"), ("lit", "$k1"))), ("sel", X2, ("gt", ("ref", "a"), ("lit", "$k1")))),
+                 (("calc", X, "d", ("neg", ("ref", "a"))), ("calc", X2, "d", ("neg", ("ref", "a"))))):
+        for top in (lambda n: n, lambda n: ("dedup", n), lambda n: ("slice", n, 0, 3), lambda n: ("chain", n, Y)):
+            for payload in ("seq", "gen"):
+                out.append({"prog": top(("chain", a, b)), "params": {"$k1": [None, None]} if "$k1" in repr(a) else {}, "cons": [], "payload": payload, "n": 2})
     for f, second in later_pairs():
         for payload in ("seq", "map"):
             out.append({"pair": (f, second), "prog": second, "params": {"$k1": [None, None]} if "$k1" in repr((f, second)) else {}, "cons": [],
@@ -170,7 +177,8 @@ def _under_eager_tree(rel, under=False, acc=None):
 
     acc = {} if acc is None else acc
     if isinstance(rel, LeafRelation):
-        acc[rel.name] = acc.get(rel.name, False) or under
+        key = id(rel.payload)  # by payload object: two leaves may share a name
+        acc[key] = acc.get(key, False) or under
     elif isinstance(rel, UnaryOperationRelation):
         _under_eager_tree(rel.target, under or isinstance(rel.operation, (Sort, Deduplication)), acc)
     elif isinstance(rel, BinaryOperationRelation):
@@ -190,8 +198,9 @@ def _run(prog, env, payloads, m=3):
     """Execute and iterate m times; returns list of (symptom, detail) problems and the row lists."""
     problems = []
     rel = build(prog, env)
+    by_id = {id(p): k for k, p in payloads.items()}
     under = {k: False for k in payloads}
-    under.update(_under_eager_tree(rel))
+    under.update({by_id[i]: v for i, v in _under_eager_tree(rel).items() if i in by_id})
     before = {k: p.starts for k, p in payloads.items()}
     it = rel.engine.execute(rel)
     after_exec = {k: p.starts for k, p in payloads.items()}
@@ -213,7 +222,7 @@ def _run(prog, env, payloads, m=3):
         prev = now
     # a later execute() of the same relation: inputs of materializations are never consumed again
     from lsst.daf.relation import Materialization
-    mat_leaves = _under_materialization(rel)
+    mat_leaves = {by_id[i]: v for i, v in _under_materialization(rel).items() if i in by_id}
     if mat_leaves:
         it2 = rel.engine.execute(rel)
         lists.append([dict(r) for r in it2])
@@ -229,7 +238,8 @@ def _under_materialization(rel, under=False, acc=None):
 
     acc = {} if acc is None else acc
     if isinstance(rel, LeafRelation):
-        acc[rel.name] = acc.get(rel.name, True) and under if rel.name in acc else under
+        key = id(rel.payload)
+        acc[key] = acc.get(key, True) and under if key in acc else under
     elif isinstance(rel, UnaryOperationRelation):
         _under_materialization(rel.target, under, acc)
     elif isinstance(rel, BinaryOperationRelation):
@@ -245,7 +255,7 @@ def _mk_env(shape, valfn, symbolic):
 
     env = Env(symbolic=symbolic)
     payloads = {}
-    used = {x for x in ("X", "Y") if f"'{x}'" in repr((shape["prog"], shape.get("pair")))}
+    used = {x for x in ("X", "Y", "X2") if f"'{x}'" in repr((shape["prog"], shape.get("pair")))}
     for name in sorted(used):
         cols = LEAVES[name]
         rows = [{env.tags[c]: valfn(name, c, i) for c in cols} for i in range(shape["n"] if name == "X" else 1)]
@@ -256,7 +266,7 @@ def _mk_env(shape, valfn, symbolic):
         else:
             p = _counting_payload(rows, shape["payload"] == "seq")
         payloads[name] = p
-        rel = LeafRelation(env.engines["it1"], frozenset(env.tags[c] for c in cols), p, name=name, min_rows=0,
+        rel = LeafRelation(env.engines["it1"], frozenset(env.tags[c] for c in cols), p, name=("X" if name == "X2" else name), min_rows=0,
                            max_rows=None if shape["payload"] == "gen" else len(rows))
         env.leaves[name] = rel
     return env, payloads
